@@ -194,6 +194,19 @@ static void planLoad(void)
 		if (!strcmp(w[0], "seed")) ;
 		else if (!strcmp(w[0], "heapbase")) { P.haveBase = 1; P.heapBase = strtoul(w[1], 0, 16); }
 		else if (!strcmp(w[0], "stackpad")) P.stackPad = L(1);
+		else if (!strcmp(w[0], "mmaps")) {
+			/* the process has N more writable mappings of its own (a host application, other
+			 * libraries): each a single page between two inaccessible ones, so that no two are
+			 * adjacent; filled with a non-pointer pattern */
+			long k, nmm = L(1);
+			for (k = 0; k < nmm && k < 4096; k++) {
+				char *m = mmap(0, 3 * 4096, PROT_NONE, MAP_PRIVATE | MAP_ANONYMOUS, -1, 0);
+				unsigned long q;
+				if (m == MAP_FAILED) break;
+				mprotect(m + 4096, 4096, PROT_READ | PROT_WRITE);
+				for (q = 0; q < 4096; q += 8) *(unsigned long *) (m + 4096 + q) = 0x4645524f464e4721UL;
+			}
+		}
 		else if (!strcmp(w[0], "envpad")) ;	/* realised by the orchestrator */
 		else if (!strcmp(w[0], "wash")) {
 			if (!strcmp(w[1], "on")) {
